@@ -501,6 +501,29 @@ class Run:
             exp_b = snap.bal.get(sym, (ZERO, ZERO, ZERO))
             if (b1.available, b1.hold, b1.borrowed) != exp_b or b1.total != exp_b[0] + exp_b[1] - exp_b[2]:
                 self.v("C02", "get_balance_ne_get_balances", f"get_balance({sym}) = {b1}, get_balances() says {exp_b}")
+        if snap.loans and not snap.loans_stale:
+            # filtered loan listings agree with the full one (the open listing is what 'borrowed' is compared with)
+            from basana.core import errors as core_errors
+            try:
+                for sym in [None] + sorted({lo.borrowed_symbol for lo in snap.loans.values()}):
+                    for is_open in (None, True, False):
+                        got3 = await e.get_loans(borrowed_symbol=sym, is_open=is_open)
+                        exp3 = [i for i, lo in snap.loans.items() if (sym is None or lo.borrowed_symbol == sym)
+                                and (is_open is None or lo.is_open == is_open)]
+                        ids3 = [lo.id for lo in got3]
+                        self.stats["loan_listing_checks"] += 1
+                        if sorted(ids3) != sorted(exp3) or len(set(ids3)) != len(ids3):
+                            for prop in ("C02", "C11"):
+                                self.v(prop, "loans_listing_mismatch",
+                                       f"get_loans(borrowed_symbol={sym}, is_open={is_open}) returned {len(ids3)} loans, "
+                                       f"{len(exp3)} of the {len(snap.loans)} loans listed without a filter match")
+                for i in list(snap.loans)[-3:]:
+                    one_ = await e.get_loan(i)
+                    lo = snap.loans[i]
+                    if (one_.is_open, one_.borrowed_symbol, one_.borrowed_amount) != (lo.is_open, lo.borrowed_symbol, lo.borrowed_amount):
+                        self.v("C11", "loan_info_mismatch", f"get_loan({i}) differs from get_loans()")
+            except core_errors.Error:
+                self.stats["loan_listing_unavailable"] += 1
         if self.lend is None and snap.loans:
             self.v("C10", "loan_without_lending", f"{len(snap.loans)} loans exist although no lending strategy is configured")
         for i in list(self.order_seq)[-5:]:
